@@ -162,3 +162,34 @@ def run(cx: Cx):
                          where=cx.where(fnr, bad.last.line), path=bad.lines())
         else:
             cx.ok('R-GUARD', f"{fnr.qualname}: no direct raise on the present branch", where=cx.where(fnr), function=fnr.qualname)
+
+    # ------------------------------------------------------------ clause 5: the documented error names the environment it came from
+    # the error object is built from (identifier, self): building it from another object (self.model.environment) fails with
+    # AttributeError in an environment without a model and names the wrong environment in a second environment of a model
+    for fnq, exc, idt in ((add, 'DuplicateAgentError', Attr(Sym(add.params[1]), 'id')), (rem, 'AgentNotFoundError', Sym(rem.params[1])),
+                          (get, 'AgentNotFoundError', Sym(get.params[1]))):
+        me = Sym(fnq.params[0])
+        n = 0
+        bad = None
+        for p in cx.walker.paths(fnq, WalkOptions(unroll=1)):
+            if p.end == 'raise' and p.last.data.get('direct') and p.last.data.get('exc') == exc:
+                n += 1
+                args = p.last.data.get('args')
+                if args is None or tuple(strip_versions(a) for a in args) != (idt, me):
+                    bad = (p, args)
+        if bad is not None:
+            cx.violation('R-FWD', fnq.qualname, f"{exc}-built-from-the-identifier-and-this-environment",
+                         f"{fnq.qualname} raises {exc}{bad[1]!r}; the documented error is {exc}({idt!r}, {me!r}) - built from anything "
+                         f"else it fails with AttributeError in an environment that has no model and reports the wrong environment in a "
+                         f"model's second environment", where=cx.where(fnq, bad[0].last.line))
+        elif n:
+            cx.ok('R-FWD', f"{fnq.name}: {exc}(identifier, self)", where=cx.where(fnq), function=fnq.qualname)
+        else:
+            cx.inconclusive('R-FWD', f"{fnq.name} {exc}", 'no direct raise of the documented error found', where=cx.where(fnq),
+                            function=fnq.qualname)
+
+    from .common import include_premises
+    include_premises(cx, ['C08'], 'placing an agent outside a spatial world must fail: the placement test is C08\'s',
+                     only=lambda o: o.function.endswith('SpaceWorld.add_agent') or o.function.endswith('SpaceWorld.remove_agent'))
+    include_premises(cx, ['C03'], 'a present agent can always be removed and the listings follow: join/leave bookkeeping is C03\'s',
+                     only=lambda o: o.function.endswith('.add_agent') or o.function.endswith('.remove_agent'))
